@@ -43,7 +43,7 @@ func CheckC09(c C09Case, rec *Rec) error {
 	opts := sc.Opts.Build()
 	pop, err := buildPopulation(sc, opts)
 	if err == errSkipScenario {
-		rec.Class("skipped: random constructor produced a gene-less genome")
+		rec.Class("skipped: constructor outside the domain (gene-less random genome / failing turnover before the checkpoint)")
 		return nil
 	}
 	if err != nil {
